@@ -214,3 +214,154 @@ Proof.
   - specialize (IHyields items2 st2 H2).
     destruct st; cbn [app] in *; (eapply Y_item; [cbn [next]; rewrite H; reflexivity|exact IHyields]).
 Qed.
+
+(* ------------------------------------------------------------------ stages *)
+
+Fixpoint top_from (n c : Z) (items : list Z) (st : status) : partial :=
+  if c =? n then ([], Closed) else
+  match items with
+  | [] => ([], st)
+  | x :: r => let (ys, st') := top_from n (c + 1) r st in (x :: ys, st')
+  end.
+
+(* the eager stage function from an arbitrary stage state *)
+Definition sfun (s : stage) (ss : sst) (items : list Z) (st : status) : partial :=
+  match s with
+  | SMap _ f => let (ys, e) := map_until f items in cut ys e st
+  | SAccept _ p => let (ys, e) := filter_until p items in cut ys e st
+  | SCombine _ g =>
+      match lastv ss with
+      | Some a => let (ys, e) := pairs_until g a items in cut ys e st
+      | None => spec_stage s (items, st)
+      end
+  | SNumber _ g => let (ys, e) := number_until g (cnt ss) items in cut ys e st
+  | SIir _ f0 _ g =>
+      match lastr ss with
+      | Some r => let (ys, e) := scan_until g r items in cut ys e st
+      | None => spec_stage s (items, st)
+      end
+  | SCompact _ eq =>
+      match lastv ss with
+      | Some a => let (ys, e) := compact_until eq a items in cut ys e st
+      | None => spec_stage s (items, st)
+      end
+  | SSkip n => (skipn (Z.to_nat (n - cnt ss)) items, st)
+  | STop n => top_from n (cnt ss) items st
+  end.
+
+Lemma next_stage_live : forall s p ss q l r, stage_done s ss = false -> next p q = (l, r) ->
+  next (PStage s p) (QStage ss q) =
+  match r with
+  | Done => (l, Done)
+  | Skip q'' => (l, Skip (QStage ss q''))
+  | Item v q'' => stage_item s ss l v q''
+  | Fail e => (l, Fail e)
+  end.
+Proof. intros s p ss q l r H H0. cbn [next]. rewrite H, H0. destruct r; reflexivity. Qed.
+
+Lemma sfun_nil : forall s ss st, stage_done s ss = false -> sfun s ss [] st = ([], st).
+Proof.
+  intros s ss st H. destruct s; cbn [sfun spec_stage map_until filter_until number_until cut];
+    try reflexivity.
+  - destruct (lastv ss); reflexivity.
+  - destruct (lastr ss); reflexivity.
+  - destruct (lastv ss); reflexivity.
+  - destruct (Z.to_nat (n - cnt ss)); reflexivity.
+  - cbn [stage_done] in H. cbn [top_from]. rewrite H. reflexivity.
+Qed.
+
+Lemma cut_cons : forall y ys e st, cut (y :: ys) e st = (y :: fst (cut ys e st), snd (cut ys e st)).
+Proof. intros y ys e st. destruct e; reflexivity. Qed.
+
+Lemma yP_item : forall P Q l o Q' pl, next P Q = (l, Item o Q') -> yieldsP P Q' pl ->
+  yieldsP P Q (o :: fst pl, snd pl).
+Proof. intros P Q l o Q' pl H Hy. unfold yieldsP in *. cbn [fst snd]. eapply Y_item; eassumption. Qed.
+
+Lemma yP_skip : forall P Q l Q' pl, next P Q = (l, Skip Q') -> yieldsP P Q' pl -> yieldsP P Q pl.
+Proof. intros P Q l Q' pl H Hy. unfold yieldsP in *. eapply Y_skip; eassumption. Qed.
+
+Lemma yP_fail : forall P Q l e, next P Q = (l, Fail e) -> yieldsP P Q ([], Failed e).
+Proof. intros P Q l e H. unfold yieldsP. cbn [fst snd]. eapply Y_fail; eassumption. Qed.
+
+Lemma stage_item_yields : forall s p q l v q' items st ss,
+  stage_done s ss = false -> next p q = (l, Item v q') ->
+  (forall ss', yieldsP (PStage s p) (QStage ss' q') (sfun s ss' items st)) ->
+  yieldsP (PStage s p) (QStage ss q) (sfun s ss (v :: items) st).
+Proof.
+  intros s p q l v q' items st ss Hd Hn IH.
+  pose proof (next_stage_live s p ss q l _ Hd Hn) as E. cbn beta iota in E.
+  destruct s as [i f|i pr|i g|i g|i0 f0 i g|i eq|n|n]; cbn [stage_item] in E; cbn [sfun].
+  - (* map *) cbn [map_until]. destruct (f v) as [y|e].
+    + specialize (IH ss). cbn [sfun] in IH. destruct (map_until f items) as [ys e]. rewrite cut_cons.
+      eapply yP_item; eassumption.
+    + cbn [cut]. eapply yP_fail; eassumption.
+  - (* accept *) cbn [filter_until]. destruct (pr v) as [[|]|e].
+    + specialize (IH ss). cbn [sfun] in IH. destruct (filter_until pr items) as [ys e]. rewrite cut_cons.
+      eapply yP_item; eassumption.
+    + specialize (IH ss). cbn [sfun] in IH. destruct (filter_until pr items) as [ys e].
+      eapply yP_skip; eassumption.
+    + cbn [cut]. eapply yP_fail; eassumption.
+  - (* combine *) destruct (lastv ss) as [a|] eqn:El.
+    + cbn [pairs_until]. destruct (g a v) as [y|e].
+      * specialize (IH (mk_sst (cnt ss) (Some v) (lastr ss))). cbn [sfun lastv] in IH.
+        destruct (pairs_until g v items) as [ys e]. rewrite cut_cons. eapply yP_item; eassumption.
+      * cbn [cut]. eapply yP_fail; eassumption.
+    + cbn [spec_stage]. specialize (IH (mk_sst (cnt ss) (Some v) (lastr ss))). cbn [sfun lastv] in IH.
+      eapply yP_skip; eassumption.
+  - (* number *) cbn [number_until]. destruct (g (cnt ss) v) as [y|e].
+    + specialize (IH (mk_sst (cnt ss + 1) (lastv ss) (lastr ss))). cbn [sfun cnt] in IH.
+      destruct (number_until g (cnt ss + 1) items) as [ys e]. rewrite cut_cons. eapply yP_item; eassumption.
+    + cbn [cut]. eapply yP_fail; eassumption.
+  - (* iir *) destruct (lastr ss) as [r|] eqn:El.
+    + cbn [scan_until]. destruct (g v r) as [y|e].
+      * specialize (IH (mk_sst (cnt ss) (Some v) (Some y))). cbn [sfun lastr] in IH.
+        destruct (scan_until g y items) as [ys e]. rewrite cut_cons. eapply yP_item; eassumption.
+      * cbn [cut]. eapply yP_fail; eassumption.
+    + cbn [spec_stage]. destruct (f0 v) as [y|e].
+      * specialize (IH (mk_sst (cnt ss) (Some v) (Some y))). cbn [sfun lastr] in IH.
+        destruct (scan_until g y items) as [ys e]. rewrite cut_cons. eapply yP_item; eassumption.
+      * eapply yP_fail; eassumption.
+  - (* compact *) destruct (lastv ss) as [a|] eqn:El.
+    + cbn [compact_until]. destruct (eq a v) as [[|]|e].
+      * specialize (IH ss). cbn [sfun] in IH. rewrite El in IH. eapply yP_skip; eassumption.
+      * specialize (IH (mk_sst (cnt ss) (Some v) (lastr ss))). cbn [sfun lastv] in IH.
+        destruct (compact_until eq v items) as [ys e]. rewrite cut_cons. eapply yP_item; eassumption.
+      * cbn [cut]. eapply yP_fail; eassumption.
+    + cbn [spec_stage]. specialize (IH (mk_sst (cnt ss) (Some v) (lastr ss))). cbn [sfun lastv] in IH.
+      destruct (compact_until eq v items) as [ys e]. rewrite cut_cons. eapply yP_item; eassumption.
+  - (* skip *) destruct (Z.ltb_spec (cnt ss) n) as [Hlt|Hge].
+    + specialize (IH (mk_sst (cnt ss + 1) (lastv ss) (lastr ss))). cbn [sfun cnt] in IH.
+      replace (Z.to_nat (n - cnt ss)) with (S (Z.to_nat (n - (cnt ss + 1)))) by lia. cbn [skipn].
+      eapply yP_skip; eassumption.
+    + specialize (IH ss). cbn [sfun] in IH.
+      replace (Z.to_nat (n - cnt ss)) with O in * by lia. cbn [skipn] in *.
+      eapply (yP_item _ _ _ _ _ (items, st)); eassumption.
+  - (* top *) cbn [stage_done] in Hd. cbn [top_from]. rewrite Hd.
+    specialize (IH (mk_sst (cnt ss + 1) (lastv ss) (lastr ss))). cbn [sfun cnt] in IH.
+    destruct (top_from n (cnt ss + 1) items st) as [ys st'].
+    eapply (yP_item _ _ _ _ _ (ys, st')); eassumption.
+Qed.
+
+Lemma top_from_done : forall n c items st, (c =? n) = true -> top_from n c items st = ([], Closed).
+Proof. intros n c items st H. destruct items; cbn [top_from]; rewrite H; reflexivity. Qed.
+
+Lemma stage_done_yields : forall s p ss q items st, stage_done s ss = true ->
+  yieldsP (PStage s p) (QStage ss q) (sfun s ss items st).
+Proof.
+  intros s p ss q items st Ed. destruct s; try discriminate. cbn [stage_done] in Ed. cbn [sfun].
+  rewrite top_from_done by exact Ed. unfold yieldsP. cbn [fst snd]. apply (Y_done _ _ []).
+  cbn [next stage_done]. rewrite Ed. reflexivity.
+Qed.
+
+Lemma stage_yields : forall s p q items st, yields p q items st ->
+  forall ss, yieldsP (PStage s p) (QStage ss q) (sfun s ss items st).
+Proof.
+  intros s p q items st H. induction H as [q|q l H|q l e H|q l q' items st H Hy IH|q l v q' items st H Hy IH]; intros ss;
+    (destruct (stage_done s ss) eqn:Ed; [apply stage_done_yields; exact Ed|]).
+  - rewrite sfun_nil by exact Ed. apply Y_open.
+  - rewrite sfun_nil by exact Ed. unfold yieldsP. cbn [fst snd]. eapply Y_done.
+    rewrite (next_stage_live s p ss q l _ Ed H). reflexivity.
+  - rewrite sfun_nil by exact Ed. eapply yP_fail. rewrite (next_stage_live s p ss q l _ Ed H). reflexivity.
+  - eapply yP_skip; [rewrite (next_stage_live s p ss q l _ Ed H); reflexivity|apply IH].
+  - eapply stage_item_yields; eassumption.
+Qed.
